@@ -208,6 +208,7 @@ let () =
       let changed = ref false in
       let prev_obs = ref None in
       let diverged = ref false in
+      let sent_hist = Hashtbl.create 16 in
       let sp = Array.make nt [] in   (* C01: per-thread pending tables computed from the history and the implementation's observations *)
       List.iter (fun b ->
         incr evno; incr nevents;
@@ -341,14 +342,56 @@ let () =
                 | _ -> ());
                (* an Interest answered from the cache (a Data was sent in reply) is consumed by that reply, whatever the PIT keeps *)
                let answered = List.exists (fun o -> o.o_kind = KData) outs_all in
-               (match impl_pending (hget b.bpit k "pit") (string_of_name i.i_name) (b01 i.i_cbp) (b01 i.i_mbf) hk (dec_of_n i.i_face) (dec_of_n now) with
-                | Some tok when not answered -> sp.(k) <- pend_interest s.regions sp.(k) now i (n_of_dec tok)
+               (* taken as pending: the PIT dump right after the event shows the in-record of this arrival, or the Interest was
+                  observed being forwarded (then the group token is the one attached upstream); from then on the record lives in the
+                  table by the history alone (lifetimes, Data arrivals, PIT updates), whatever the implementation's PIT does *)
+               let fwd_tok = List.find_map (fun o -> if o.o_kind = KInterest && List.length o.o_tok = 6
+                                                     then Some (be_val (List.filteri (fun j _ -> j >= 2) o.o_tok)) else None) outs_all in
+               (match impl_pending (hget b.bpit k "pit") (string_of_name i.i_name) (b01 i.i_cbp) (b01 i.i_mbf) hk (dec_of_n i.i_face) (dec_of_n now), fwd_tok with
+                | Some tok, _ when not answered -> sp.(k) <- pend_interest s.regions sp.(k) now i (n_of_dec tok)
+                | None, Some tok when not answered -> sp.(k) <- pend_interest s.regions sp.(k) now i tok
                 | _ -> ())
            | WLocal (k, ETick now) ->
                if outs_impl <> [] then Printf.printf "ORACLE C01 %s %d spontaneous | a PIT update emitted packets: [%s]\n" caseid !evno outs_impl_str;
                let k = int_of_n k in if k < nt then sp.(k) <- pend_tick sp.(k) now
            | _ ->
                if outs_impl <> [] then Printf.printf "ORACLE C01 %s %d spontaneous | an event that is not a packet arrival emitted packets: [%s]\n" caseid !evno outs_impl_str)
+        end;
+        if want "C02" then begin
+          (* suppression judged from the history of observed sends: per thread, PIT entry key and upstream token, the last
+             (nonce, time) an Interest was sent on each face; cleared when a Data that satisfies the entry arrives *)
+          (match we with
+           | WPacket (EInterest (now, i)) ->
+               let k = thr_of_name i.i_name in
+               let s = pre (if k < nt then k else 0) in
+               let hk = match select_hint s.regions i.i_hints with Some h -> h | None -> [] in
+               let sent_i = List.filter (fun o -> o.o_kind = KInterest && List.length o.o_tok = 6) outs_all in
+               (match sent_i, i.i_nonce with
+                | o0 :: _, Some x ->
+                    let utok = be_val (List.filteri (fun j _ -> j >= 2) o0.o_tok) in
+                    let key = (k, i.i_name, i.i_cbp, i.i_mbf, hk, utok) in
+                    let hist = try Hashtbl.find sent_hist key with Not_found -> [] in
+                    let supp = suppression (strat_of_name s i.i_name) in
+                    if i.i_nhf = None then
+                      List.iter (fun (f, x', at) ->
+                        if not (N.eqb x' x) && N.ltb now (N.add at supp) then
+                          Printf.printf "ORACLE C02 %s %d not-suppressed-history:%s | Interest %s from face %s nonce %s was forwarded [%s] although an Interest of this PIT entry with another nonce (%s) had been sent on face %s only %s ns earlier (suppression interval %s ns)\n"
+                            caseid !evno (if N.eqb (strat_of_name s i.i_name) (n_of_int 1) then "multicast" else "best-route")
+                            (string_of_name i.i_name) (dec_of_n i.i_face) (dec_of_n x) outs_impl_str (dec_of_n x') (dec_of_n f)
+                            (dec_of_n (N.sub now at)) (dec_of_n supp)) hist;
+                    let hist' = List.fold_left (fun h o -> (o.o_face, x, now) :: List.filter (fun (f, _, _) -> not (N.eqb f o.o_face)) h) hist sent_i in
+                    Hashtbl.replace sent_hist key hist'
+                | _ -> ())
+           | WPacket (EData (_, d)) ->
+               if data_effective pre0.faces d then begin
+                 let dead = Hashtbl.fold (fun ((k, nm, cbp, _, _, utok) as key) _ acc ->
+                     let sat = match data_token d.d_tok with
+                       | Some (th, tk) -> int_of_n th = k && N.eqb tk utok
+                       | None -> is_prefix nm d.d_name && (cbp || List.length nm = List.length d.d_name) in
+                     if sat then key :: acc else acc) sent_hist [] in
+                 List.iter (Hashtbl.remove sent_hist) dead
+               end
+           | _ -> ())
         end;
         if want "C02" && pre_ok then begin
           (match we with
